@@ -151,11 +151,11 @@ func classifyRoot(A, B runRes, prefix, region []string) (string, string) {
 	for addr, la := range ma {
 		lb, ok := mb[addr]
 		if !ok {
-			if B.dirty[addr] && A.exist[addr] == "true" && B.exist[addr] == "true" && A.empty[addr] == "false" && B.empty[addr] == "true" && !zeroTouch(region, addr) {
-				return "empty-looks-at-storage-cache", "account " + addr + " is empty() without the region but not after the reverted region (storageChange.undo and reads leave keys in cachedStorage, which empty() counts): kept as " + la + " instead of being deleted by IntermediateRoot(true)"
-			}
 			if zeroTouch(region, addr) && !A.dirty[addr] && B.dirty[addr] {
 				return "touch-undo-disarms-ondirty", "account " + addr + ": touchChange.undo removed the dirty mark but onDirty stays nil, so a later touch/write never marks it dirty again and IntermediateRoot(true) ignores it: kept as " + la
+			}
+			if B.dirty[addr] && A.exist[addr] == "true" && B.exist[addr] == "true" && A.empty[addr] == "false" && B.empty[addr] == "true" {
+				return "empty-looks-at-storage-cache", "account " + addr + " is empty() without the region but not after the reverted region (storageChange.undo and reads leave keys in cachedStorage, which empty() counts): kept as " + la + " instead of being deleted by IntermediateRoot(true)"
 			}
 			return "extra-account-after-revert", "account " + addr + " = " + la + " only exists after the reverted region"
 		}
